@@ -68,6 +68,7 @@ inductive Obs where
   | resp (o : Outcome) (t : Nat)      -- … and returned / raised
   | failure (t : Nat)                 -- `on_failure` awaited
   | ended (t : Nat)                   -- the heartbeat task finished by itself
+  | crashed (t : Nat)                 -- … finished with the exception `on_failure` raised (it propagates)
   | cut (t : Nat)                     -- the harness stopped a live heartbeat (script exhausted)
   deriving DecidableEq, Repr
 
@@ -103,6 +104,11 @@ def mstep? (m : M) : Obs → Option M
   | .ended t =>
     if !m.closed && !m.waiting && m.last ≤ t && (m.ph = .gone || (m.ph = .lost && m.failed))
     then some { m with closed := true } else none
+  | .crashed t =>
+    -- whatever `on_failure` does - return, raise, take time, stop the heartbeat - it was started once, and an
+    -- exception it raises ends the task; it never leads to another request or another declaration
+    if !m.closed && !m.waiting && m.last ≤ t && m.ph = .lost && m.failed
+    then some { m with closed := true } else none
   | .cut t =>
     match m.ph with
     | .run _ => if m.started && !m.closed && m.last ≤ t then some { m with closed := true } else none
@@ -125,6 +131,7 @@ def parseObs (s : String) : Option Obs :=
   | 'F' :: r => (String.ofList r).toNat?.map .failure
   | 'E' :: r => (String.ofList r).toNat?.map .ended
   | 'X' :: r => (String.ofList r).toNat?.map .cut
+  | 'Z' :: r => (String.ofList r).toNat?.map .crashed
   | 'R' :: r =>
     match (String.ofList r).splitOn "@" with
     | [o, t] => do
